@@ -1,7 +1,7 @@
 /-
 Proof/YamlBlockScalar — layer 3 of `render_load` (C14): literal and folded block scalars.
 -/
-import SuccinctlyVerif.Proof.YamlRefBlock
+import SuccinctlyVerif.Proof.YamlRoundTrip
 namespace SV.YamlRef
 
 /-! ## Layer 3: block scalars — text lemmas -/
@@ -218,6 +218,335 @@ theorem literal_roundtrip (f : List Nat) (ch : Chomp) (s : Str) (h : chompOk ch 
         | nil => exact absurd rfl hze
         | cons _ _ => rfl
       simp [this, chompText, newlines, List.replicate_succ', List.append_assoc]
+
+
+/-! ## Block-scalar body lines as `Line`s -/
+
+/-- Body lines of a block scalar as `Line`s. -/
+def bsLines (ci : Nat) (body : List Str) : List Line := body.map fun l => mkLine (indentLine ci l)
+
+/-- A writable body line: empty, or with a character that is not a space. -/
+def bodyOk (l : Str) : Prop := l = [] ∨ l.any (· != ' ') = true
+
+theorem mkLine_spaces_append (n : Nat) (l : Str) :
+    mkLine (spaces n ++ l) = ⟨n + (mkLine l).ind, (mkLine l).txt⟩ := by
+  induction n with
+  | zero => simp [spaces, mkLine]
+  | succ n ih =>
+    have : spaces (n + 1) ++ l = ' ' :: (spaces n ++ l) := by simp [spaces, List.replicate_succ]
+    rw [this]
+    simp only [mkLine, List.takeWhile_cons, List.dropWhile_cons, beq_self_eq_true, if_true, List.length_cons] at ih ⊢
+    simp only [Line.mk.injEq] at ih ⊢
+    exact ⟨by rw [ih.1]; omega, ih.2⟩
+
+theorem mkLine_txt_ne (l : Str) (h : l.any (· != ' ') = true) : (mkLine l).txt ≠ [] := by
+  induction l with
+  | nil => simp at h
+  | cons c t ih =>
+    by_cases hc : c = ' '
+    · subst hc
+      have : t.any (· != ' ') = true := by simpa using h
+      simpa [mkLine, List.dropWhile_cons] using ih this
+    · simp [mkLine, List.dropWhile_cons, hc]
+
+theorem mkLine_split (l : Str) : spaces (mkLine l).ind ++ (mkLine l).txt = l := by
+  induction l with
+  | nil => rfl
+  | cons c t ih =>
+    by_cases hc : c = ' '
+    · subst hc
+      simp only [mkLine, List.takeWhile_cons, List.dropWhile_cons, beq_self_eq_true, if_true, List.length_cons, spaces,
+        List.replicate_succ, List.cons_append] at ih ⊢
+      rw [ih]
+    · simp [mkLine, List.takeWhile_cons, List.dropWhile_cons, hc, spaces]
+
+/-- What the reader needs of one rendered body line. -/
+theorem bsLine_facts (ci : Nat) (l : Str) (h : bodyOk l) :
+    bsLineText ci (mkLine (indentLine ci l)) = l ∧
+      (((mkLine (indentLine ci l)).txt = [] ∧ (mkLine (indentLine ci l)).ind = 0 ∧ l = []) ∨
+        ((mkLine (indentLine ci l)).txt ≠ [] ∧ ci ≤ (mkLine (indentLine ci l)).ind ∧ l ≠ [] ∧
+          (mkLine (indentLine ci l)).ind = ci + (mkLine l).ind)) := by
+  by_cases he : l = []
+  · subst he
+    simp [indentLine, mkLine, bsLineText, spaces]
+  · have ha : l.any (· != ' ') = true := by
+      rcases h with h | h
+      · exact absurd h he
+      · exact h
+    have hie : l.isEmpty = false := by cases l <;> simp_all
+    have hm : mkLine (indentLine ci l) = ⟨ci + (mkLine l).ind, (mkLine l).txt⟩ := by
+      simp only [indentLine, hie, Bool.false_eq_true, if_false]
+      exact mkLine_spaces_append ci l
+    have hne := mkLine_txt_ne l ha
+    have hte : (mkLine l).txt.isEmpty = false := by cases h' : (mkLine l).txt <;> simp_all
+    rw [hm]
+    refine ⟨?_, Or.inr ⟨hne, Nat.le_add_right _ _, he, rfl⟩⟩
+    simp only [bsLineText, hte, Bool.false_eq_true, if_false, Nat.add_sub_cancel_left]
+    exact mkLine_split l
+
+theorem takeBs_append (ci : Nat) (A rest : List Line)
+    (hA : ∀ l ∈ A, (l.txt.isEmpty || decide (l.ind ≥ ci)) = true) :
+    takeBsLines ci (A ++ rest) = (A ++ (takeBsLines ci rest).1, (takeBsLines ci rest).2) := by
+  induction A with
+  | nil => simp
+  | cons a A ih =>
+    have h1 := hA a (List.mem_cons_self ..)
+    have h2 := ih (fun l hl => hA l (List.mem_cons_of_mem _ hl))
+    simp only [List.cons_append, takeBsLines, h1, if_true, h2]
+
+theorem takeBs_rest (ci : Nat) (rest : List Line)
+    (hr : ∀ l r, rest.dropWhile (·.txt.isEmpty) = l :: r → l.ind < ci) :
+    takeBsLines ci rest = (rest.takeWhile (·.txt.isEmpty), rest.dropWhile (·.txt.isEmpty)) := by
+  induction rest with
+  | nil => rfl
+  | cons a rest ih =>
+    by_cases ha : a.txt.isEmpty = true
+    · have := ih (by intro l r h; exact hr l r (by simpa [List.dropWhile_cons, ha] using h))
+      simp only [takeBsLines, ha, Bool.true_or, if_true, this, List.takeWhile_cons, List.dropWhile_cons]
+    · have ha' : a.txt.isEmpty = false := by simpa using ha
+      have hlt := hr a rest (by simp [List.dropWhile_cons, ha'])
+      have : ¬ (a.ind ≥ ci) := by omega
+      simp [takeBsLines, ha', this, List.takeWhile_cons, List.dropWhile_cons]
+
+
+abbrev blankL (l : Line) : Bool := l.txt.isEmpty
+
+theorem mem_takeWhile_imp {α : Type} {p : α → Bool} {l : List α} {a : α} (h : a ∈ l.takeWhile p) : p a = true := by
+  induction l with
+  | nil => simp at h
+  | cons x t ih =>
+    by_cases hx : p x = true
+    · simp only [List.takeWhile_cons, hx, if_true, List.mem_cons] at h
+      rcases h with rfl | h
+      · exact hx
+      · exact ih h
+    · simp [List.takeWhile_cons, hx] at h
+
+theorem bsLines_mem (ci : Nat) (body : List Str) (hb : ∀ l ∈ body, bodyOk l) :
+    ∀ L ∈ bsLines ci body, (L.txt = [] ∧ L.ind = 0) ∨ (L.txt ≠ [] ∧ ci ≤ L.ind) := by
+  intro L hL
+  obtain ⟨l, hl, rfl⟩ := List.mem_map.mp hL
+  rcases (bsLine_facts ci l (hb l hl)).2 with ⟨h1, h2, _⟩ | ⟨h1, h2, _⟩
+  · exact Or.inl ⟨h1, h2⟩
+  · exact Or.inr ⟨h1, h2⟩
+
+theorem bsLines_blank (ci : Nat) (body : List Str) (hall : ∀ l ∈ body, l = []) :
+    bsLines ci body = List.replicate body.length ⟨0, []⟩ := by
+  induction body with
+  | nil => rfl
+  | cons b t ih =>
+    have hb : b = [] := hall b (List.mem_cons_self ..)
+    subst hb
+    have := ih (fun l hl => hall l (List.mem_cons_of_mem _ hl))
+    simp only [bsLines, List.map_cons, List.length_cons, List.replicate_succ] at this ⊢
+    rw [this]; rfl
+
+theorem bsLines_texts (ci : Nat) (body : List Str) (hb : ∀ l ∈ body, bodyOk l) :
+    (bsLines ci body).map (bsLineText ci) = body := by
+  induction body with
+  | nil => rfl
+  | cons b t ih =>
+    have := ih (fun l hl => hb l (List.mem_cons_of_mem _ hl))
+    simp only [bsLines, List.map_cons, List.map_map] at this ⊢
+    rw [(bsLine_facts ci b (hb b (List.mem_cons_self ..))).1]
+    congr 1
+
+theorem readBs_core (c ciR : Nat) (body : List Str) (rest : List Line)
+    (hb : ∀ l ∈ body, bodyOk l) (hc : c = ciR ∨ ∀ l ∈ body, l = [])
+    (hr : ∀ l r, rest.dropWhile blankL = l :: r → l.ind < c)
+    (h0 : ∀ l ∈ rest.takeWhile blankL, l.ind = 0) :
+    takeBsLines c (bsLines ciR body ++ rest) = (bsLines ciR body ++ rest.takeWhile blankL, rest.dropWhile blankL) ∧
+    ((bsLines ciR body ++ rest.takeWhile blankL).takeWhile blankL).any (fun l => decide (l.ind > c)) = false ∧
+    (bsLines ciR body ++ rest.takeWhile blankL).any (fun l => l.txt.head? == some '\t' && decide (l.ind < c)) = false ∧
+    (bsLines ciR body ++ rest.takeWhile blankL).map (bsLineText c) = body ++ List.replicate (rest.takeWhile blankL).length [] := by
+  have hmem := bsLines_mem ciR body hb
+  -- every blank line of `mine` has indentation 0, every other one at least `c`
+  have hmine : ∀ L ∈ bsLines ciR body ++ rest.takeWhile blankL, (L.txt = [] ∧ L.ind = 0) ∨ (L.txt ≠ [] ∧ c ≤ L.ind) := by
+    intro L hL
+    rcases List.mem_append.mp hL with h | h
+    · rcases hc with rfl | hall
+      · exact hmem L h
+      · rw [bsLines_blank ciR body hall] at h
+        have := List.eq_of_mem_replicate h
+        subst this; exact Or.inl ⟨rfl, rfl⟩
+    · have hbl : blankL L = true := (mem_takeWhile_imp h)
+      have : L.txt = [] := by simpa [blankL] using hbl
+      exact Or.inl ⟨this, h0 L h⟩
+  refine ⟨?_, ?_, ?_, ?_⟩
+  · rw [takeBs_append c _ rest, takeBs_rest c rest hr]
+    intro l hl
+    rcases hmine l (List.mem_append_left _ hl) with ⟨h1, _⟩ | ⟨_, h2⟩
+    · simp [h1]
+    · simp [h2]
+  · rw [List.any_eq_false]
+    intro L hL
+    have hL' := mem_takeWhile_imp hL
+    have hm := (List.takeWhile_sublist _).subset hL
+    rcases hmine L hm with ⟨_, h2⟩ | ⟨h1, _⟩
+    · simp [h2]
+    · simp [blankL, h1] at hL'
+  · rw [List.any_eq_false]
+    intro L hL
+    rcases hmine L hL with ⟨h1, _⟩ | ⟨_, h2⟩
+    · simp [h1]
+    · have : ¬ (L.ind < c) := by omega
+      simp [this]
+  · rw [List.map_append]
+    congr 1
+    · rcases hc with rfl | hall
+      · exact bsLines_texts c body hb
+      · rw [bsLines_blank ciR body hall]
+        have hbody : body = List.replicate body.length [] := by
+          apply List.eq_replicate_iff.mpr
+          exact ⟨rfl, hall⟩
+        conv => rhs; rw [hbody]
+        simp [bsLineText, spaces]
+    · apply List.eq_replicate_iff.mpr
+      refine ⟨by simp, ?_⟩
+      intro t ht
+      obtain ⟨L, hL, rfl⟩ := List.mem_map.mp ht
+      have hbl : blankL L = true := (mem_takeWhile_imp hL)
+      have h1 : L.txt = [] := by simpa [blankL] using hbl
+      simp [bsLineText, h1, h0 L hL, spaces]
+
+
+/-- The content indentation `readBlockScalar` works with. -/
+def bsCi (hd : BsHeader) (pn : Nat) (ls : List Line) : Nat :=
+  match hd.indent with
+  | some d => pn + d - 1
+  | none =>
+    match ls.find? (fun l => !l.txt.isEmpty) with
+    | some l => if l.ind ≥ pn then l.ind else pn
+    | none => ls.foldl (fun a l => if l.txt.isEmpty then max a l.ind else a) pn
+
+theorem readBs_eq (hd : BsHeader) (pn : Nat) (ls : List Line) :
+    readBlockScalar hd pn ls =
+      (if hd.indent.isNone && (ls.find? (fun l => !l.txt.isEmpty)).isSome &&
+          ((takeBsLines (bsCi hd pn ls) ls).1.takeWhile (·.txt.isEmpty)).any (fun l => l.ind > bsCi hd pn ls) then
+        .error (.syntax "leading empty line of block scalar is over-indented")
+      else if (takeBsLines (bsCi hd pn ls) ls).1.any (fun l => l.txt.head? == some '\t' && l.ind < bsCi hd pn ls) then
+        .error (.unsupported "tab")
+      else
+        .ok (if hd.folded then foldedText hd.chomp ((takeBsLines (bsCi hd pn ls) ls).1.map (bsLineText (bsCi hd pn ls)))
+             else literalText hd.chomp ((takeBsLines (bsCi hd pn ls) ls).1.map (bsLineText (bsCi hd pn ls))),
+             (takeBsLines (bsCi hd pn ls) ls).2)) := by
+  unfold readBlockScalar bsCi
+  cases hd.indent with
+  | some d => rfl
+  | none =>
+    cases ls.find? (fun l => !l.txt.isEmpty) with
+    | some l => rfl
+    | none => rfl
+
+theorem find_not_dropWhile {α : Type} (p : α → Bool) (l : List α) :
+    l.find? (fun x => !p x) = (l.dropWhile p).head? := by
+  induction l with
+  | nil => rfl
+  | cons x t ih =>
+    by_cases hx : p x = true
+    · simp [List.find?_cons, List.dropWhile_cons, hx, ih]
+    · simp [List.find?_cons, List.dropWhile_cons, hx]
+
+theorem bsLines_find (ci : Nat) (body : List Str) (hb : ∀ l ∈ body, bodyOk l) :
+    (bsLines ci body).find? (fun l => !l.txt.isEmpty) =
+      (body.find? (fun l => !l.isEmpty)).map (fun l => mkLine (indentLine ci l)) := by
+  induction body with
+  | nil => rfl
+  | cons b t ih =>
+    have := ih (fun l hl => hb l (List.mem_cons_of_mem _ hl))
+    simp only [bsLines, List.map_cons, List.find?_cons] at this ⊢
+    rcases (bsLine_facts ci b (hb b (List.mem_cons_self ..))).2 with ⟨h1, _, h3⟩ | ⟨h1, _, h3, _⟩
+    · subst h3
+      simp only [h1, List.isEmpty_nil, Bool.not_true]
+      exact this
+    · have e1 : (mkLine (indentLine ci b)).txt.isEmpty = false := by
+        cases h : (mkLine (indentLine ci b)).txt <;> simp_all
+      have e2 : b.isEmpty = false := by cases b <;> simp_all
+      simp [e1, e2]
+
+/-- Lines that may follow a block scalar held by an entry at indentation `e`: the first non-blank one
+is not deeper than the entry, blank ones are empty, and after `keep` chomping no blank line follows. -/
+def Tail (e : Nat) (keep : Bool) (rest : List Line) : Prop :=
+  (∀ l r, rest.dropWhile blankL = l :: r → l.ind ≤ e) ∧
+  (∀ l ∈ rest.takeWhile blankL, l.ind = 0) ∧
+  (keep = true → ∀ l r, rest = l :: r → l.txt.isEmpty = false)
+
+/-- Reading back the rendered body lines of a block scalar. -/
+theorem readBs (hd : BsHeader) (pn e ciR : Nat) (body : List Str) (rest : List Line)
+    (hb : ∀ l ∈ body, bodyOk l) (ht : Tail e (hd.chomp == .keep) rest) (hlt : e < ciR)
+    (hind : (∃ d, hd.indent = some d ∧ pn + d - 1 = ciR) ∨
+      (hd.indent = none ∧ pn ≤ ciR ∧ (e < pn ∨ ∃ l ∈ body, l ≠ []) ∧
+        ∀ l, body.find? (fun l => !l.isEmpty) = some l → l.head? ≠ some ' ')) :
+    ∃ j, readBlockScalar hd pn (bsLines ciR body ++ rest) =
+        .ok (if hd.folded then foldedText hd.chomp (body ++ List.replicate j [])
+             else literalText hd.chomp (body ++ List.replicate j []), rest.dropWhile blankL) ∧
+      (hd.chomp = .keep → j = 0) := by
+  obtain ⟨t1, t2, t3⟩ := ht
+  -- the content indentation the reader computes
+  have hci : (bsCi hd pn (bsLines ciR body ++ rest) = ciR ∨ ∀ l ∈ body, l = []) ∧
+      ∀ l r, rest.dropWhile blankL = l :: r → l.ind < bsCi hd pn (bsLines ciR body ++ rest) := by
+    rcases hind with ⟨d, hd1, hd2⟩ | ⟨hn, hpn, hcont, hsp⟩
+    · have : bsCi hd pn (bsLines ciR body ++ rest) = ciR := by simp [bsCi, hd1, hd2]
+      rw [this]
+      exact ⟨Or.inl rfl, fun l r h => by have := t1 l r h; omega⟩
+    · cases hf : body.find? (fun l => !l.isEmpty) with
+      | some b0 =>
+        have hb0 : b0 ∈ body := List.mem_of_find?_eq_some hf
+        have hne : b0.isEmpty = false := by simpa using List.find?_some hf
+        have hne' : b0 ≠ [] := by intro e0; subst e0; simp at hne
+        have hfacts := bsLine_facts ciR b0 (hb b0 hb0)
+        have hind0 : (mkLine b0).ind = 0 := by
+          cases b0 with
+          | nil => exact absurd rfl hne'
+          | cons c t =>
+            have hc : c ≠ ' ' := by simpa using hsp _ hf
+            simp [mkLine, List.takeWhile_cons, hc]
+        have hL : (mkLine (indentLine ciR b0)).ind = ciR := by
+          rcases hfacts.2 with ⟨_, _, h3⟩ | ⟨_, _, _, h4⟩
+          · exact absurd h3 hne'
+          · rw [h4, hind0]; rfl
+        have hfind : (bsLines ciR body ++ rest).find? (fun l => !l.txt.isEmpty) = some (mkLine (indentLine ciR b0)) := by
+          rw [List.find?_append, bsLines_find ciR body hb, hf]; rfl
+        have : bsCi hd pn (bsLines ciR body ++ rest) = ciR := by
+          simp only [bsCi, hn, hfind, hL]
+          simp [hpn]
+        rw [this]
+        exact ⟨Or.inl rfl, fun l r h => by have := t1 l r h; omega⟩
+      | none =>
+        have hall : ∀ l ∈ body, l = [] := by
+          intro l hl
+          have := List.find?_eq_none.mp hf l hl
+          cases l with
+          | nil => rfl
+          | cons _ _ => simp at this
+        have hepn : e < pn := by
+          rcases hcont with h | ⟨l, hl, hne⟩
+          · exact h
+          · exact absurd (hall l hl) hne
+        have hfind : (bsLines ciR body ++ rest).find? (fun l => !l.txt.isEmpty) = (rest.dropWhile blankL).head? := by
+          rw [List.find?_append, bsLines_find ciR body hb, hf]
+          simp only [Option.map_none, Option.none_or]
+          exact find_not_dropWhile blankL rest
+        refine ⟨Or.inr hall, ?_⟩
+        intro l r h
+        have hle := t1 l r h
+        have : bsCi hd pn (bsLines ciR body ++ rest) = pn := by
+          simp only [bsCi, hn, hfind, h, List.head?_cons]
+          have : ¬ (l.ind ≥ pn) := by omega
+          simp [this]
+        rw [this]; omega
+  obtain ⟨hc1, hc2⟩ := hci
+  obtain ⟨k1, k2, k3, k4⟩ := readBs_core (bsCi hd pn (bsLines ciR body ++ rest)) ciR body rest hb hc1 hc2 t2
+  refine ⟨(rest.takeWhile blankL).length, ?_, ?_⟩
+  · rw [readBs_eq, k1]
+    simp only [k2, k3, k4, Bool.and_false, Bool.false_eq_true, if_false]
+  · intro hk
+    have hk' : (hd.chomp == Chomp.keep) = true := by rw [hk]; rfl
+    cases hrest : rest with
+    | nil => rfl
+    | cons a r =>
+      have := t3 hk' a r hrest
+      simp [List.takeWhile_cons, blankL, this]
 
 
 end SV.YamlRef
